@@ -145,6 +145,13 @@ def families(thorough):
             s.append(Case(t, stop='X', params=st))
             s.append(Case(t, stop='X', params=st, roles=(1, 1)))
     F['params'] = s
+    # -- the shutdown broadcast arriving at any point of a session
+    s = []
+    for t in (['select'], ['select', 'select2'], ['begin', 'select', 'commit'], ['begin', 'select', 'commit', 'select2'], ['P', 'B', 'E', 'S', 'select'], ['begin', 'P', 'B', 'E', 'S', 'commit'],
+              ['begin', 'copyin', 'd', 'c', 'commit', 'select'], ['set', 'select']):
+        for stop in ('X', 'eof'):
+            s.append(Case(t, stop=stop, shutdown=True))
+    F['shutdown'] = s
     # -- idle_client_in_transaction_timeout: the deadline may fire at any read inside a transaction
     s = []
     for t in (['begin', 'select', 'commit'], ['begin', 'select', 'select2', 'commit', 'select'], ['begin', 'set', 'select'], ['begin', 'copyin', 'd', 'c', 'commit'],
@@ -228,6 +235,7 @@ DESCR = {
     'plugins': 'query parser on, the plugin verdict (allow / deny / intercept) of every parsed statement SYMBOLIC',
     'status': 'statements after each of which the backend reports a SYMBOLIC transaction status (any status PostgreSQL can reach from the previous one)',
     'params': 'sessions of a client whose startup values of tracked parameters differ from the servers\' (incl. a value with a quote), SETs of tracked and untracked parameters outside and inside BEGIN, on one server and on two (either may serve each transaction)',
+    'shutdown': 'sessions during which the shutdown broadcast may arrive at any select! (solver\'s choice, either polling order)',
     'timeouts': 'transactions of a client while idle_client_in_transaction_timeout is configured: at every read inside the transaction loop the deadline fires or not (solver\'s choice), afterwards the session goes on; and sessions with statement_timeout configured in which a slow statement is or is not answered in time',
     'two-clients': 'a first client (tracked-parameter SETs, named statements with caching on, an open transaction / COPY / session state at EOF) followed by a second client on the same server connections with its own parameters, statement names and requests',
     'copy': 'COPY IN sessions whose CopyData chunks have sizes on both sides of the 8196-byte forwarding threshold (1-3 chunks, CopyDone or CopyFail, then another query)',
@@ -258,7 +266,7 @@ def handle_obligations(chk, prog, props, fams):
     tasks = []
     for fam in fams:
         cases = F[fam]
-        n = max(1, min(12, len(cases) // (4 if fam in ('status', 'plugins', 'malformed', 'commands', 'cache', 'params', 'two-clients', 'timeouts') else 40)))
+        n = max(1, min(12, len(cases) // (4 if fam in ('status', 'plugins', 'malformed', 'commands', 'cache', 'params', 'two-clients', 'timeouts', 'shutdown') else 40)))
         for i in range(n):
             tasks.append((prog, fam, i, n, cases[i::n], set(props)))
     chk.parallel(_run_chunk, tasks)
